@@ -89,7 +89,18 @@ def _worker(args):
     try:
         with np.errstate(all="ignore"):
             return mod.run_case(case)
-    except Exception as e:  # a crash of the harness itself must never look like a pass
+    except Exception as e:
+        # An exception that escaped a check. If virocon code was on the stack when it was raised, the library raised on an
+        # input the check considers valid (every such call passes on the unchanged tree): that is a violation with its own
+        # signature, not a harness failure. Anything else is a crash of the harness itself and must never look like a pass.
+        tb = traceback.extract_tb(e.__traceback__)
+        repo_frames = [f for f in tb if os.path.realpath(f.filename).startswith(os.path.realpath(REPO) + os.sep)]
+        if repo_frames:
+            f = repo_frames[-1]
+            return {"viol": [{"sig": {"check": "uncaught_library_exception", "exc": type(e).__name__,
+                                      "where": f"{os.path.basename(f.filename)}:{f.name}"},
+                              "detail": {"msg": str(e)[:300], "trace_tail": traceback.format_exc()[-1200:]}, "case": jsonable(case)}],
+                    "n": 1, "nontrivial": 1}
         return {"harness_error": f"{type(e).__name__}: {e}", "trace": traceback.format_exc(), "case": jsonable(case)}
 
 
